@@ -242,8 +242,11 @@ Section Model.
         feed (sk_k sk) wm it w (fun r => nmul r w) (sk_cw sk, sk_rho sk, sk_smp sk) s in
       Some ({| sk_k := sk_k sk; sk_n := sk_n sk + 1; sk_cw := cw; sk_wmax := wm; sk_rho := rho; sk_smp := sm |}, s').
 
-  (* internal_merge(sk): [a] is *this (not lighter than [b]).  As coded, wt_max_ of *this is NOT updated. *)
-  Definition internal_merge (a b : sketch) (s : cs) : sketch * cs :=
+  (* internal_merge(sk): [a] is *this (not lighter than [b]).
+     [keep_wmax = true] is the code before fixes/18_ebpps_merge_wt_max.patch: new_wt_max was computed and used for the
+     replay but never stored, so wt_max_ of *this stayed behind the true maximum (see Regression_ebpps.v);
+     [keep_wmax = false] is the repaired code (wt_max_ = new_wt_max at the end). *)
+  Definition internal_merge_gen (keep_wmax : bool) (a b : sketch) (s : cs) : sketch * cs :=
     let final := nadd (sk_cw a) (sk_cw b) in
     let wm := nmax (sk_wmax a) (sk_wmax b) in
     let k := Z.min (sk_k a) (sk_k b) in
@@ -261,13 +264,18 @@ Section Model.
       | None => (st1, s1)
       end in
     let '(cw, rho, sm) := st2 in
-    ({| sk_k := k; sk_n := new_n; sk_cw := final; sk_wmax := sk_wmax a; sk_rho := rho; sk_smp := sm |}, s2).
+    ({| sk_k := k; sk_n := new_n; sk_cw := final; sk_wmax := if keep_wmax then sk_wmax a else wm;
+        sk_rho := rho; sk_smp := sm |}, s2).
+  Definition internal_merge := internal_merge_gen false.
 
-  (* merge(sk), lvalue and rvalue overloads alike as far as *this is concerned *)
-  Definition merge (a b : sketch) (s : cs) : sketch * cs :=
+  (* merge(sk), lvalue and rvalue overloads alike as far as *this is concerned.
+     As coded: an empty [sk] is ignored altogether (its k too), and an empty *this that receives a non-empty sketch takes
+     min k but keeps the sample as it is (both are registered findings, see checks/C18.py). *)
+  Definition merge_gen (keep_wmax : bool) (a b : sketch) (s : cs) : sketch * cs :=
     if neqb (sk_cw b) n0 then (a, s)
-    else if nltb (sk_cw a) (sk_cw b) then internal_merge b a s
-    else internal_merge a b s.
+    else if nltb (sk_cw a) (sk_cw b) then internal_merge_gen keep_wmax b a s
+    else internal_merge_gen keep_wmax a b s.
+  Definition merge := merge_gen false.
 
   (* a whole stream of updates; a refused update (None) leaves the sketch unchanged *)
   Fixpoint run_updates (sk : sketch) (ups : list (Item * num)) (s : cs) : sketch * cs :=
